@@ -32,6 +32,10 @@ def content(rng, f, cls, variant=None):
     if cls == "section" and rng.random() < 0.15:
         return (BIG + SECTION[f]).encode("utf-8")           # the section far down in a big file
     text = (rng.choice(UNRELATED[f]) if variant is None else UNRELATED[f][variant % len(UNRELATED[f])]) if cls == "unrelated" else SECTION[f]
+    if cls == "section" and rng.random() < 0.3:
+        # the keys of the section in another order (version_pattern, whose value holds a bracket, before current_version), a commented line between them
+        ls = text.rstrip("\n").split("\n")
+        text = "\n".join(ls[:-2] + [ls[-1], "# [not a table] just a remark", ls[-2]]) + "\n"
     style = rng.choice(["lf", "lf", "crlf", "nonl", "crlf-nonl", "comment"])
     if "nonl" in style:
         text = text.rstrip("\n")
